@@ -102,6 +102,12 @@ pub struct Router {
     shared_subscriptions: HashMap<String, SharedGroup>,
     /// Will messages per client_id
     last_wills: HashMap<String, (LastWill, Option<LastWillProperties>)>,
+    /// (verification stepping) `run_inner` is called one turn at a time by `verif_turn`
+    #[cfg(feature = "verif")]
+    verif_stepping: bool,
+    /// (verification stepping) the loop is where the real one blocks on the event channel
+    #[cfg(feature = "verif")]
+    verif_waiting: bool,
 }
 
 impl Router {
@@ -143,6 +149,10 @@ impl Router {
             cache: Some(VecDeque::with_capacity(MAX_CHANNEL_CAPACITY)),
             shared_subscriptions: HashMap::new(),
             last_wills: HashMap::new(),
+            #[cfg(feature = "verif")]
+            verif_stepping: false,
+            #[cfg(feature = "verif")]
+            verif_waiting: false,
         }
     }
 
@@ -196,7 +206,16 @@ impl Router {
         // Block on incoming events if there are no ready connections for consumption
         if self.consume().is_none() {
             // trace!("{}:: {:20} {:20} {:?}", self.id, "", "done-await", self.readyqueue);
+            #[cfg(not(feature = "verif"))]
             let (id, data) = self.router_rx.recv()?;
+            // stepped by the verification harness: having to wait ends the step
+            // (`TryRecvError::Empty`, see `verif_turn`)
+            #[cfg(feature = "verif")]
+            let (id, data) = if self.verif_stepping {
+                self.router_rx.try_recv()?
+            } else {
+                self.router_rx.recv()?
+            };
             self.events(id, data);
         }
 
@@ -2526,24 +2545,25 @@ impl Router {
         self.router_rx.try_recv().ok()
     }
 
-    /// Run the real `run_inner()` once if (and only if) it would not block on the
-    /// event channel. When only a stale id is queued, performs the single `consume()`
-    /// the real loop would perform before blocking. Returns whether a turn was run.
+    /// One turn of the real `run_inner()`. Where the real loop would block on the event
+    /// channel (its first `consume()` served nobody and no event is queued) the turn ends
+    /// and the router counts as waiting: it is not run again before an event is on the
+    /// channel, whatever its ready queue holds — exactly like the thread blocked in
+    /// `recv()`. Returns whether a whole turn was run.
     pub fn verif_turn(&mut self) -> bool {
-        let head_live = self
-            .scheduler
-            .readyqueue
-            .front()
-            .is_some_and(|id| self.scheduler.trackers.contains(*id));
-
-        if !head_live && self.router_rx.is_empty() {
-            if !self.scheduler.readyqueue.is_empty() {
-                self.consume();
-            }
+        self.verif_stepping = true;
+        if self.verif_waiting && self.router_rx.is_empty() {
             return false;
         }
-
-        self.run_inner().is_ok()
+        self.verif_waiting = false;
+        match self.run_inner() {
+            Ok(()) => true,
+            Err(RouterError::TryRecv(TryRecvError::Empty)) => {
+                self.verif_waiting = true;
+                false
+            }
+            Err(_) => false,
+        }
     }
 }
 
